@@ -12,6 +12,7 @@
 #include <atomic>
 #include <thread>
 #include <cfenv>
+#include <pthread.h>
 #include <cerrno>
 #include <sstream>
 #include <iostream>
@@ -107,6 +108,9 @@ static void op_lwelin(const V &a, V &r) {  // opcode n p a1(n) b1 a2(n) b2 ; opc
     for (int i = 0; i < n; i++) { c1->a[i] = (int32_t) a[3 + i]; c2->a[i] = (int32_t) a[4 + n + i]; res->a[i] = 12345 + i; }
     c1->b = (int32_t) a[3 + n]; c2->b = (int32_t) a[4 + 2 * n]; res->b = 777;
     c1->current_variance = 0.25; c2->current_variance = 0.0625;
+    // the variance annotation is bookkeeping, not an operand: half of the calls carry annotations of exactly 0 (hand-filled samples, noiseless
+    // encryptions, fresh extractions) - the coefficients computed must not depend on them
+    if (n >= 1 && (a[3] & 1)) c2->current_variance = 0.; if (n >= 1 && (a[3] & 2)) c1->current_variance = 0.;
     LweSample *s = alias ? c1 : c2; LweSample *out = c1;
     switch (opc) {
         case 0: lweAddTo(c1, s, lp); break;
@@ -206,6 +210,8 @@ static void op_tlwe(const V &a, V &r) {  // opcode k N p c1((k+1)N) c2((k+1)N)
     TLweSample *c1 = new_TLweSample(tp), *c2 = new_TLweSample(tp), *res = new_TLweSample(tp);
     for (int i = 0; i <= k; i++) for (int j = 0; j < N; j++) {
         c1->a[i].coefsT[j] = (int32_t) a[4 + i * N + j]; c2->a[i].coefsT[j] = (int32_t) a[4 + (k + 1) * N + i * N + j]; res->a[i].coefsT[j] = 99; }
+    // variance annotations: zero (as the constructor leaves them) or not, by the parity of the first coefficients - bookkeeping only
+    if (a[4] & 1) c1->current_variance = 0.25; if (a[4] & 2) c2->current_variance = 0.0625; if (a[4] & 4) res->current_variance = 123.;
     TLweSample *out = c1;
     if (opc == 0) tLweAddTo(c1, c2, tp);
     else if (opc == 1) tLweSubTo(c1, c2, tp);
@@ -428,6 +434,16 @@ static void op_decompsweep(const V &a, V &r) {  // l B lo hi
 }
 
 static int g_amb_errno = 0, g_amb_flags = 0;
+// op "stack K": the library calls of the following poly / lwelin / tlwe / keyswitch / decomp lines run on a thread whose stack has K KiB (plus a guard
+// area): worker threads of pools, fibres and embedded ports have small stacks; a routine that moves its scratch onto the stack dies there
+static int g_stack_kib = 0;
+struct SmallJob { void (*fn)(const V &, V &); const V *a; V *r; };
+static void *small_tramp(void *p) { SmallJob *j = (SmallJob *) p; j->fn(*j->a, *j->r); return 0; }
+static void run_small(void (*fn)(const V &, V &), const V &a, V &r) {
+    if (!g_stack_kib) { fn(a, r); return; }
+    pthread_attr_t at; pthread_attr_init(&at); pthread_attr_setstacksize(&at, (size_t) g_stack_kib * 1024); pthread_attr_setguardsize(&at, 65536);
+    SmallJob j = { fn, &a, &r }; pthread_t th; if (pthread_create(&th, &at, small_tramp, &j)) abort(); pthread_join(th, 0); pthread_attr_destroy(&at);
+}
 int main(int argc, char **argv) {
     std::string line;
     while (std::getline(std::cin, line)) {
@@ -437,7 +453,8 @@ int main(int argc, char **argv) {
         V r;
         if (g_amb_flags) feraiseexcept(FE_ALL_EXCEPT);
         if (g_amb_errno) errno = g_amb_errno;
-        if (op == "guard") { vguard::on = a.empty() ? 0 : (int) a[0]; r.push_back(1); r.push_back(vguard::served); }   // every array allocated from here on ends at an inaccessible page (guard_new.h)
+        if (op == "stack") { g_stack_kib = a.empty() ? 0 : (int) a[0]; r.push_back(1); }
+        else if (op == "guard") { vguard::on = a.empty() ? 0 : (int) a[0]; r.push_back(1); r.push_back(vguard::served); }   // every array allocated from here on ends at an inaccessible page (guard_new.h)
         else if (op == "ambient") {   // sticky per-thread state left behind by unrelated code, re-established before every following call: errno value (0 = leave alone), 1 = all floating-point exception flags raised
             g_amb_errno = a.size() > 0 ? (int) a[0] : 0; g_amb_flags = a.size() > 1 ? (int) a[1] : 0;
             if (!g_amb_flags) feclearexcept(FE_ALL_EXCEPT); if (!g_amb_errno) errno = 0; r.push_back(1); }
@@ -456,15 +473,15 @@ int main(int argc, char **argv) {
         else if (op == "msfsweep") sweep_msf(a, r);
         else if (op == "msfbound") bound_msf(a, r);
         else if (op == "lwephase") op_lwephase(a, r);
-        else if (op == "lwelin") op_lwelin(a, r);
-        else if (op == "poly") op_poly(a, r);
+        else if (op == "lwelin") run_small(op_lwelin, a, r);
+        else if (op == "poly") run_small(op_poly, a, r);
         else if (op == "variance") op_variance(a, r);
-        else if (op == "tlwe") op_tlwe(a, r);
-        else if (op == "keyswitch") op_keyswitch(a, r);
+        else if (op == "tlwe") run_small(op_tlwe, a, r);
+        else if (op == "keyswitch") run_small(op_keyswitch, a, r);
         else if (op == "ksreal") op_ksreal(a, r);
         else if (op == "kssweep") op_kssweep(a, r);
-        else if (op == "decomp") op_decomp(a, r);
-        else if (op == "tlwedecomp") op_tlwedecomp(a, r);
+        else if (op == "decomp") run_small(op_decomp, a, r);
+        else if (op == "tlwedecomp") run_small(op_tlwedecomp, a, r);
         else if (op == "decompmt") op_decompmt(a, r);
         else if (op == "tgswparams") op_tgswparams(a, r);
         else if (op == "decompsweep") op_decompsweep(a, r);
